@@ -34,6 +34,7 @@ def parseNext (obs : String) : Option Next :=
   | ["none"] => some .none
   | ["done"] => some .none
   | ["busy"] => some .busy
+  | ["silent"] => some .silent
   | _ => none
 
 /-- the model's answer in the harness's vocabulary -/
@@ -62,7 +63,11 @@ def runSeq (c : CaseIn) : Array String := Id.run do
   let txOf (i : Nat) : Tx := (txs.find? (·.id == i)).getD ⟨i, []⟩
   let mut out : Array String := #[]
   let mut st : State := {}
-  let mut os : OState := {}
+  -- slow and tick cases run on a real interval: a tick the harness cannot see may start the next rebroadcast
+  -- right after the last call of the running one was answered (in a slow case that is the scenario; in a tick
+  -- case the harness aligns its answers to the ticker's phase, which a loaded machine can still overrun)
+  let slow := c.header.headD "" == "slow" || c.header.headD "" == "tick"
+  let mut os : OState := { freeRunning := slow }
   let mut diverged := false
   for (ln, line) in c.lines do
     let (op, obs) := splitObs line
@@ -76,7 +81,8 @@ def runSeq (c : CaseIn) : Array String := Id.run do
           let ret : BRet := if hang then .hang else if obs == "ok" then .ok else if obs == "stopped" then .stopped else .err
           (some (.bcast (txOf (nat! i)) r), some (.bcast (txOf (nat! i)) r ret))
       | ["confirm", i] => some (some (.confirm (nat! i)), some (.confirm (nat! i) hang))
-      | ["block"] | ["tick"] =>
+      | ["block"] | ["tick"] | ["hold", _] =>
+        -- hold k: the interval elapsed k times while the rebroadcast's call stayed unanswered (ticks that find it running)
         if hang then some (some .trigger, none) else (parseNext obs).map fun n => (some .trigger, some (.trigger n))
       | ["rbres", i, r] =>
         (parseRes r).bind fun r =>
@@ -111,11 +117,18 @@ def runSeq (c : CaseIn) : Array String := Id.run do
         | some m =>
           let (st', mo) := step st m
           st := st'
-          let want := showOut mo
+          let mut want := showOut mo
           let got := match words obs with
             | ["rb", _] => "rb"
             | ["cancelled"] => "ret"
+            | ["silent"] => "done"   -- the model cannot tell how long nothing happened; the oracle's interval clause does
             | _ => obs
+          -- free-running rounds: the model's rebroadcast is over and the implementation made a further call:
+          -- an interval tick (invisible to the harness) has started the next rebroadcast
+          if slow && mo == .done && got == "rb" && ws.head? == some "rbres" then
+            let (st2, mo2) := step st .trigger
+            st := st2
+            want := showOut mo2
           if want != got then
             out := out.push s!"DIFF C15 case {c.num} line {ln}: {op} impl=<{obs}> model=<{want}>"
             diverged := true
